@@ -542,3 +542,131 @@ func genSpec(t *rapid.T, module string, wild int) paramSpec {
 	}
 	return p
 }
+
+// ---------------------------------------------------------------------------------------------
+// htlc: baseline with assets, and parameter sets drawn relative to the live asset supplies
+
+// baselineSpec is the parameter set of the prepared state of the differential machine: the module defaults, except for
+// htlc, whose default (no assets) makes every HTLT operation impossible — there the baseline is a two-asset list that
+// the authority installed before the prepared HTLT history was created.
+func baselineSpec(module string) paramSpec {
+	if module != "htlc" {
+		return defaultSpec(module)
+	}
+	return paramSpec{Module: "htlc", HTLC: &htlcS{Assets: []assetS{
+		{Denom: "htltbnb", Limit: "1000000000000", TimeLimit: "0", Active: true, Deputy: "U3", FixedFee: "10", MinSwap: "1", MaxSwap: "1000000000",
+			MinLock: 50, MaxLock: 34560},
+		{Denom: "htltbtc", Limit: "1000000000", TimeLimited: true, Period: int64(time.Hour), TimeLimit: "1000000", Active: true, Deputy: "U3",
+			FixedFee: "0", MinSwap: "1", MaxSwap: "1000000", MinLock: 50, MaxLock: 34560},
+	}}}
+}
+
+func liveAssets(c *chain.Case) []assetS {
+	var out []assetS
+	for _, a := range c.E.K.HTLC.GetParams(c.Ctx).AssetParams {
+		out = append(out, assetS{Denom: a.Denom, Limit: intS(normInt(a.SupplyLimit.Limit)), TimeLimited: a.SupplyLimit.TimeLimited,
+			Period: int64(a.SupplyLimit.TimePeriod), TimeLimit: intS(normInt(a.SupplyLimit.TimeBasedLimit)), Active: a.Active, Deputy: a.DeputyAddress,
+			FixedFee: intS(normInt(a.FixedFee)), MinSwap: intS(normInt(a.MinSwapAmount)), MaxSwap: intS(normInt(a.MaxSwapAmount)),
+			MinLock: a.MinBlockLock, MaxLock: a.MaxBlockLock})
+	}
+	return out
+}
+
+// supplyView is the stored supply record of one asset.
+type supplyView struct {
+	found              bool
+	cur, inc, out, tlc *big.Int
+	elapsed            int64
+}
+
+func supplyOf(c *chain.Case, denom string) supplyView {
+	s, ok := c.E.K.HTLC.GetAssetSupply(c.Ctx, denom)
+	if !ok {
+		return supplyView{cur: new(big.Int), inc: new(big.Int), out: new(big.Int), tlc: new(big.Int)}
+	}
+	return supplyView{found: true, cur: s.CurrentSupply.Amount.BigInt(), inc: s.IncomingSupply.Amount.BigInt(), out: s.OutgoingSupply.Amount.BigInt(),
+		tlc: s.TimeLimitedCurrentSupply.Amount.BigInt(), elapsed: int64(s.TimeElapsed)}
+}
+
+func clamp0(v *big.Int) *big.Int {
+	if v.Sign() < 0 {
+		return new(big.Int)
+	}
+	return v
+}
+
+func off(v *big.Int, d int64) *big.Int { return new(big.Int).Add(v, big.NewInt(d)) }
+
+// genHTLCRelative edits the live asset list: limits and time-based limits are placed just below, at and just above what the
+// asset's supply record already holds, period boundaries sit around the elapsed time, plus deactivation / removal / limit
+// changes of other kinds. Every result keeps 0 <= TimeBasedLimit <= Limit, i.e. stays inside what Params.Validate() accepts.
+// The returned index is the asset that was edited (-1 if the list is empty).
+func genHTLCRelative(t *rapid.T, c *chain.Case) (*htlcS, int) {
+	assets := liveAssets(c)
+	if len(assets) == 0 {
+		return genHTLC(t, 0), -1
+	}
+	target := rapid.IntRange(0, len(assets)-1).Draw(t, "rel.asset")
+	edits := 1
+	if len(assets) > 1 && rapid.IntRange(0, 3).Draw(t, "rel.two") == 0 {
+		edits = 2
+	}
+	for e := 0; e < edits; e++ {
+		i := (target + e) % len(assets)
+		a := &assets[i]
+		sv := supplyOf(c, a.Denom)
+		tot := new(big.Int).Add(sv.cur, sv.inc)
+		used := new(big.Int).Add(sv.tlc, sv.inc)
+		l := fmt.Sprintf("rel%d.", e)
+		setLimit := func() {
+			v := rapid.SampledFrom([]*big.Int{off(tot, -1), off(tot, -1), tot, off(tot, 1), off(sv.cur, -1), sv.cur, sv.inc, big.NewInt(0), big.NewInt(1),
+				off(tot, 1000)}).Draw(t, l+"limit")
+			a.Limit = intS(clamp0(v).String())
+		}
+		setTime := func() {
+			a.TimeLimited = true
+			v := rapid.SampledFrom([]*big.Int{off(used, -1), off(used, -1), used, off(used, 1), sv.tlc, off(sv.tlc, -1), big.NewInt(0), big.NewInt(1)}).Draw(t, l+"tlimit")
+			a.TimeLimit = intS(clamp0(v).String())
+			a.Period = rapid.SampledFrom([]int64{0, 1, sv.elapsed, sv.elapsed + 1, sv.elapsed + int64(5*time.Second), int64(time.Hour), math.MaxInt64, -1}).Draw(t, l+"period")
+		}
+		switch rapid.IntRange(0, 11).Draw(t, l+"shape") {
+		case 0, 1, 2, 3:
+			setLimit()
+		case 4, 5, 6:
+			setTime()
+		case 7, 8:
+			setLimit()
+			setTime()
+		case 9:
+			a.Active = false
+		case 10:
+			switch rapid.IntRange(0, 4).Draw(t, l+"misc") {
+			case 0:
+				a.Deputy = rapid.SampledFrom([]string{"U0", "gov", "htlcmod"}).Draw(t, l+"deputy")
+			case 1:
+				a.MinSwap, a.MaxSwap = "1000000", a.MaxSwap
+				if gen.BigOf(string(a.MaxSwap)).Cmp(big.NewInt(1000000)) < 0 {
+					a.MaxSwap = "1000000"
+				}
+			case 2:
+				a.MinSwap, a.MaxSwap = "1", "1"
+			case 3:
+				a.FixedFee = rapid.SampledFrom([]intS{"0", "1000000000000", intS(maxInt256())}).Draw(t, l+"fee")
+			default:
+				a.TimeLimited = !a.TimeLimited
+			}
+		default: // the asset disappears from the list while it has supply / open swaps
+			assets = append(assets[:i:i], assets[i+1:]...)
+			if len(assets) == 0 || rapid.Bool().Draw(t, l+"add") {
+				assets = append(assets, assetS{Denom: "htlteth", Limit: "1000000", TimeLimit: "0", Active: true, Deputy: "U3", FixedFee: "0", MinSwap: "1",
+					MaxSwap: "1000", MinLock: 50, MaxLock: 60})
+			}
+			return &htlcS{Assets: assets}, -1
+		}
+		// keep the set inside the accepted region: 0 <= time based limit <= limit
+		if gen.BigOf(string(a.TimeLimit)).Cmp(gen.BigOf(string(a.Limit))) > 0 {
+			a.TimeLimit = a.Limit
+		}
+	}
+	return &htlcS{Assets: assets}, target
+}
